@@ -112,7 +112,7 @@ def cmd_run(props, jobs=6):
     todo = []
     root = os.path.join(VERIF, "mutants")
     for prop in sorted(os.listdir(root)):
-        if props and prop not in props:
+        if (props and prop not in props) or not os.path.isdir(os.path.join(root, prop)):
             continue
         for f in sorted(os.listdir(os.path.join(root, prop))):
             if f.endswith(".patch"):
@@ -189,7 +189,7 @@ if __name__ == "__main__":
                     continue
                 alarms = []
                 for p_ in props:
-                    rc, viol, out = run_check(p_, d)
+                    rc, viol, out = run_check(p_, d, cache=os.path.join(VERIF, ".cache", "mutslots", "r"))
                     if rc != 0:
                         alarms.append((p_, rc, viol[:3]))
                 print("%-28s %s" % (f[:-6], "silent on all %d checks" % len(props) if not alarms else "FALSE ALARMS: %s" % alarms), flush=True)
@@ -202,7 +202,7 @@ if __name__ == "__main__":
         bad = 0
         root = os.path.join(VERIF, "mutants")
         for prop in sorted(os.listdir(root)):
-            if a[1:] and prop not in a[1:]:
+            if (a[1:] and prop not in a[1:]) or not os.path.isdir(os.path.join(root, prop)):
                 continue
             for f in sorted(os.listdir(os.path.join(root, prop))):
                 if not f.endswith(".patch"):
